@@ -75,7 +75,10 @@ func (p *gcpPicker) Pick(info balancer.PickInfo) (balancer.PickResult, error) {
 				return balancer.PickResult{}, fmt.Errorf(
 					"failed to retrieve affinity key from request message: %v", err)
 			}
-			boundKey = a[0]
+			// The locator may resolve to no key at all (e.g. an empty repeated field).
+			if len(a) > 0 {
+				boundKey = a[0]
+			}
 		}
 	}
 
